@@ -1092,7 +1092,7 @@ func (t *Term) smtRef() string {
 		}
 		return fmt.Sprintf("(_ bv%d %d)", t.val, t.w)
 	case OpVar:
-		return "|" + t.name + "|"
+		return fmt.Sprintf("|%s:%d|", t.name, t.w)
 	}
 	return fmt.Sprintf("t%d", t.id)
 }
